@@ -363,6 +363,7 @@ package unmarshal
 //@   modifies fields(z)
 //@ func (*zipkinDecoderV2).decodeSpan$1 [C05,C06]
 //@   requires spanStateOK(z)
+//@   at parseEndpoint$ endpoint-tags-carry-the-prefix-of-their-own-endpoint: (key == "localEndpoint" ==> arg1 == "local_endpoint_") && (key == "remoteEndpoint" ==> arg1 == "remote_endpoint_")
 //@   modifies fields(z)
 //@   ensures result == nil ==> spanStateOK(z)
 
